@@ -209,7 +209,7 @@ def run(ctx):
                         "differently (version detection by first '='/'_is_'/'.', '=' inside a tag value, m20 keys with exactly unit+mtype, "
                         "float timestamps) both verdicts are allowed",
                         "values/timestamps that Go's ParseFloat accepts beyond decimal int/float notation (inf, nan, hex floats) are not generated",
-                        "bad-metrics records are added asynchronously: the driver polls Bad().Get for up to 10 s per rejected line",
+                        "bad-metrics records are added asynchronously: the driver polls Bad().Get for up to 10 s per rejected line (0.5 s once three records have failed to appear)",
                         "order validation is a configuration dimension of the gate (sequential use of the register only; its "
                         "atomicity under concurrent connections is C19); generated timestamps are positive whole or fractional seconds "
                         "below 2^31",
